@@ -227,7 +227,7 @@ pub enum Op {
     /// the NEXT store / removal runs under a file size limit (RLIMIT_FSIZE, the kernel's own
     /// "no more room": ftruncate and write beyond the limit fail with EFBIG); 0 = at the current
     /// length of event.map, 1 = at the current length of data.mdb, 2 = 8 KiB, 3 = the larger of
-    /// the two lengths
+    /// the two lengths, 4..7 = 1/8, 1/4, 3/8, 5/8 of the length of data.mdb, 8 = 90 bytes beyond the used part of event.map
     Fsize(u8),
 }
 
